@@ -304,6 +304,18 @@ package hotspot
 //@   panics never
 //@   ensures[iff] err == nil <==> validRule(rule)
 //@   modifies nothing
+// the controller constructor copies the rule's parameters and leaves the rule object as the caller passed it: the
+// loaded rules are recorded (currentRules) and compared with the next load, so a constructor that "normalises" a
+// field of the rule makes an identical reload look changed (the pinned tree did: repaired, 53030b8)
+//@ func newBaseTrafficShapingControllerWithMetric(r, metric) c
+//@   props C13, C14
+//@   requires r != nil
+//@   ensures[fresh-controller] c != nil && fresh(c) && c.r == r && c.metric == metric && c.threshold == r.Threshold && c.paramIndex == r.ParamIndex && c.paramKey == r.ParamKey && c.durationInSec == r.DurationInSec && c.metricType == r.MetricType
+//@   ensures[specific-items-of-the-rule] r.SpecificItems != nil ==> c.specificItems == r.SpecificItems
+//@   ensures[specific-items-never-nil] c.specificItems != nil
+//@   ensures[loaded-rule-left-untouched] frame()
+//@   modifies nothing
+
 // the controller builder (user-registered generator functions): assumed; it is only ever handed validated rules, and
 // it edits the list it is GIVEN in place
 //@ func buildResourceTrafficShapingController(res, resRules, oldResTcs) r
